@@ -32,7 +32,7 @@ ANCHOR_FILES = ['src/TotalDepth/LIS/core/LogiRec.py', 'src/TotalDepth/LIS/core/R
                 'src/TotalDepth/LIS/core/Mnem.py', 'src/TotalDepth/LIS/core/EngVal.py', 'src/TotalDepth/LIS/core/LisGen.py',
                 'src/TotalDepth/LIS/core/File.py', 'src/TotalDepth/LIS/core/PhysRec.py']
 
-RULE = ('tables: random shapes (0..8 rows, 1..7 columns, cells drawn from byte strings of length 0..255, integers at and '
+RULE = ('tables: random shapes (0..8 rows, 1..7 columns; column mnemonics, row names and table names include near-duplicates that differ only in trailing space/NUL/tab/whitespace, case, a leading blank or a non-ASCII byte, plus a fixed family of such pairs on every run; cells drawn from byte strings of length 0..255, integers at and '
         'around the 8/16/32-bit range boundaries, representable and non-representable floats, optional units, duplicated row '
         'names) written by LrTableWrite and read back through physical records of random length; hand-assembled and '
         'truncated/corrupted component block streams; format specifications: random subsets of the 17 entry block types '
@@ -335,12 +335,55 @@ def oracle_table(ctx, mods, case, wline, wobj, lr, how):
     k2 = first_kept([exp_value(r[0][0]) for r in rows1]); rowsE = [rows1[i] for i in k2]   # reader, on decoded names
     try:
         bad = _table_diff(t, name, mn, rowsE)
+        if not bad and wobj is not None and len(wobj):
+            if [tok(k) for k in wobj.rowLabels()] != [tok(r[0][0]) for r in rows1]: bad = 'composed table: row labels/order differ'
+            elif list(wobj.colLabels()) != mn: bad = 'composed table: column labels %r != %r' % (list(wobj.colLabels()), mn)
+            else: bad = _label_diff(wobj, mn, 'composed table')
     except Exception as e:
         bad = 'decoded table cannot be inspected: %r' % (e,)
     if bad:
         ctx.fail(c2, bad); return
     if len(rowsE) >= 1 and len(mn) >= 2:
         ctx.nontriv(('table', case['name'], tuple(case['mnems']), tuple(tuple(r) for r in case['rows'])))
+
+
+def label_probes(mn):
+    """labels that are NOT column mnemonics of the table but would be under a folding of padding / case / blanks"""
+    out = []
+    for m in mn:
+        c = m.rstrip(PADS)
+        for v in (c + b' ' * (4 - len(c)), c + b'\x00' * (4 - len(c)), c + b'\t' * (4 - len(c)), m.lower(), m.upper(), m.swapcase(),
+                  (b' ' + m.strip(PADS) + b'    ')[:4], (m.strip(PADS) + b'    ')[:4], c):
+            if v not in mn and v not in out: out.append(v)
+    return out
+
+
+def _label_diff(t, mn, what):
+    """access by column label (raw 4-byte keys) on every row, and by row name on the table"""
+    probes = label_probes(mn)
+    rows = list(t.genRows())
+    for ri, row in enumerate(rows):
+        cells = list(row.genCells())
+        for ci, m in enumerate(mn[:len(cells)]):
+            if m not in row: return '%s row %d: column %r not found by label' % (what, ri, m)
+            if row[m] is not cells[ci]: return '%s row %d: row[%r] is the cell %r, expected cell %d (%r)' % (what, ri, m, row[m].mnem, ci, cells[ci].mnem)
+        for v in probes:
+            if v in row: return '%s row %d: label %r found (cell %r) but it is not a column mnemonic' % (what, ri, v, row[v].mnem)
+        if isinstance(row.value, bytes):
+            if row.value not in t or t[row.value] is not row: return '%s: table[%r] is not row %d' % (what, row.value, ri)
+    names = [r.value for r in rows if isinstance(r.value, bytes)]
+    for nm in names:
+        if len(nm) != 4: continue
+        c = nm.rstrip(PADS)
+        for v in (c + b' ' * (4 - len(c)), c + b'\x00' * (4 - len(c)), nm.swapcase(), nm.lower()):
+            if v not in names and v in t: return '%s: row name %r found but no row has that name' % (what, v)
+    # the column order generator used by genLisBytes
+    for ri, row in enumerate(rows):
+        cells = list(row.genCells())
+        got = [c for c in t.genRowValuesInColOrder(ri)]
+        if len(cells) == len(mn) and (len(got) != len(cells) or any(g is not c for g, c in zip(got, cells))):
+            return '%s row %d: cells in column order are %r, expected %r' % (what, ri, [g.mnem if g is not None else None for g in got], [c.mnem for c in cells])
+    return None
 
 
 def _table_diff(t, name, mn, rowsE):
@@ -368,6 +411,8 @@ def _table_diff(t, name, mn, rowsE):
             if bad: break
             # retrieval by row label gives the same row
             if isinstance(row.value, bytes) and t[row.value] is not row: bad = 'table[%r] is not row %d' % (row.value, ri); break
+    if not bad and rowsE:
+        bad = _label_diff(t, mn, 'decoded table')
     return bad
 
 
@@ -506,7 +551,39 @@ def gen_value(rng, allow_empty=True, wide=False):
 
 
 def gen_mnem(rng, n=4):
+    if n == 4 and rng.random() < 0.08:
+        c = rbytes(rng, rng.randint(0, 3), b'ABCDEFGH')       # short cores with mixed padding: collisions under folding are likely
+        return c + bytes(rng.choice(b' \x00\t\n\r\x0b\x0c') for _ in range(4 - len(c)))
     return rbytes(rng, n, b'ABCDEFGHIJKLMNOPQRSTUVWXYZ0123456789 ') if rng.random() < 0.9 else bytes(rng.randrange(256) for _ in range(n))
+
+
+PADS = b' \x00\t\n\r\x0b\x0c'
+
+
+def near_dup_pair(rng):
+    """two different 4-byte strings that a sloppy key normalisation would fold together: they differ only in trailing
+    padding (space / NUL / tab / other whitespace, what Mnem.Mnem ignores), in case, in a leading blank, or in a non-ASCII
+    byte (equal after .decode(errors='replace'))"""
+    while True:
+        q = rng.randrange(6)
+        core = rbytes(rng, rng.randint(0, 3), b'ABCDEFGHIJKLMNOPQRSTUVWXYZ0123456789')
+        if q <= 1:       # trailing padding
+            a = core + bytes(rng.choice(PADS) for _ in range(4 - len(core)))
+            b = core + bytes(rng.choice(PADS) for _ in range(4 - len(core)))
+            if q == 1: a = core + b' ' * (4 - len(core)); b = core + b'\x00' * (4 - len(core))
+        elif q == 2:     # case
+            a = rbytes(rng, 4, b'ABCDEFGHIJKLMNOPQRSTUVWXYZ0123 '); k = rng.randrange(4)
+            b = a[:k] + a[k:k + 1].swapcase() + a[k + 1:] if rng.random() < 0.5 else a.lower()
+        elif q == 3:     # leading blank against trailing blank
+            c3 = rbytes(rng, rng.randint(1, 3), b'ABCDEFGHIJKLMNOPQRSTUVWXYZ0123456789')
+            a = (c3 + b'    ')[:4]; b = (rng.choice([b' ', b'\t', b'\x00']) + c3 + b'   ')[:4]
+        elif q == 4:     # non-ASCII bytes
+            a = bytearray(rbytes(rng, 4)); k = rng.randrange(4); a[k] = rng.randrange(128, 256); b = bytearray(a)
+            b[k] = rng.randrange(128, 256); a, b = bytes(a), bytes(b)
+        else:            # blank against NUL against other blanks, whole field
+            a, b = rng.sample([b'    ', b'\x00\x00\x00\x00', b'\t\t\t\t', b'  \x00\x00', b'\x00   ', b' \x00 \x00', b'\n\r\x0b\x0c'], 2)
+        if a != b and len(a) == 4 and len(b) == 4:
+            return (a, b) if rng.random() < 0.5 else (b, a)
 
 
 def gen_table(rng, kind):
@@ -518,11 +595,23 @@ def gen_table(rng, kind):
         if m not in mn and m != b'MNEM': mn.append(m)
     if rng.random() < 0.6: mn[0] = b'MNEM'
     elif ncol > 1 and rng.random() < 0.15: mn[rng.randrange(1, ncol)] = b'MNEM'
+    if rng.random() < 0.3:      # near-duplicate column mnemonics: different 4-byte strings, equal under Mnem / strip / case / decode
+        if ncol == 1: ncol = 2; mn.append(gen_mnem(rng))
+        a, b = near_dup_pair(rng)
+        i, j = rng.sample(range(ncol), 2)
+        if rng.random() < 0.5 and mn[i] != b'MNEM':      # a variant of a mnemonic that is already there
+            c = mn[i].rstrip(PADS); b = c + bytes(rng.choice(PADS) for _ in range(4 - len(c))); a = mn[i]
+        mn2 = list(mn); mn2[i], mn2[j] = a, b
+        if len(set(mn2)) == len(mn2): mn = mn2
     nrow = rng.choice([0, 1, 1, 2, 3, 4, 5, 8])
     names = []
     rows = []
     for _ in range(nrow):
         if names and rng.random() < 0.2: nm = rng.choice(names)
+        elif names and isinstance(names[-1], bytes) and len(names[-1]) == 4 and rng.random() < 0.15:
+            c = names[-1].rstrip(PADS)       # near-duplicate row name: a different row
+            nm = c + bytes(rng.choice(PADS) for _ in range(4 - len(c))) if rng.random() < 0.6 else names[-1].swapcase()
+        elif rng.random() < 0.05: nm = near_dup_pair(rng)[0]
         else:
             q = rng.random()
             nm = rbytes(rng, 4) if q < 0.75 else rbytes(rng, rng.randint(1, 9)) if q < 0.85 else gen_int(rng) if q < 0.93 else gen_float(rng)
@@ -530,7 +619,7 @@ def gen_table(rng, kind):
         row = [nm] + [gen_value(rng) for _ in range(ncol - 1)]
         row = [((v, rng.choice([rbytes(rng, 4), rbytes(rng, 4), b'FEET', b'    ', b''])) if rng.random() < 0.3 else v) for v in row]
         rows.append(row)
-    name = rbytes(rng, 4) if rng.random() < 0.85 else rbytes(rng, rng.randint(1, 40))
+    name = rbytes(rng, 4) if rng.random() < 0.8 else near_dup_pair(rng)[0] if rng.random() < 0.3 else rbytes(rng, rng.randint(1, 40))
     lrType = rng.choice([34, 34, 32, 39])
     if kind == 'wild':
         q = rng.randrange(9)
@@ -576,7 +665,7 @@ def gen_stream(rng):
     names = []
     wellformed = has73
     for _ in range(nrow):
-        nm = rng.choice(names) if names and rng.random() < 0.35 else rbytes(rng, rng.choice([4, 4, 4, 2, 0]))
+        nm = rng.choice(names) if names and rng.random() < 0.35 else near_dup_pair(rng)[0] if rng.random() < 0.1 else rbytes(rng, rng.choice([4, 4, 4, 2, 0]))
         names.append(nm)
         out += py_cb(0, 65, len(nm), rng.choice([0, 0, 7]), rng.choice([b'MNEM', b'MNEM', b'NAME']), b'    ', nm)
         for _ in range(rng.randint(0, 4) if has73 else (0 if rng.random() < 0.8 else 1)):
@@ -712,6 +801,17 @@ def _run(ctx, mods):
                     cell = (l, u) if u else l
                     cases.append({'op': 'table', 'lrType': 34, 'name': tok(b'TABL'), 'mnems': [hx(mn0), hx(b'COL1')],
                                   'rows': [[cell_tok(f), cell_tok(cell)], [cell_tok(b'B   '), cell_tok(b'zz')], [cell_tok(f), cell_tok(b'dupe')]][:1 + (len(cases) % 3)]})
+    # near-duplicate column mnemonics / row names, a fixed family on every run
+    FIXED_PAIRS = [(b'DL  ', b'DL\x00\x00'), (b'    ', b'\x00\x00\x00\x00'), (b'DL  ', b'DL\t '), (b'GR  ', b'gr  '), (b'GR  ', b' GR '),
+                   (b'A\xffBC', b'A\xfeBC'), (b'ABC ', b'ABC\x00'), (b'ABCD', b'ABCd'), (b'\x00\x00\x00\x00', b'\t\t\t\t'), (b'X   ', b'X\n\r\x0b'),
+                   (b'MNEM', b'mnem'), (b'MNE ', b'MNE\x00')]
+    for a, b in FIXED_PAIRS:
+        for cols in ([b'MNEM', a, b], [a, b], [b, b'MID ', a], [b'MNEM', a, b'COL1', b, b'COL2']):
+            if len(set(cols)) != len(cols): continue
+            for names in ([b'R1  '], [b'R1  ', b'R1\x00\x00', b'r1  ', b'R1  '], [a, b]):
+                cases.append({'op': 'table', 'lrType': 34, 'name': tok(a), 'mnems': [hx(m) for m in cols],
+                              'rows': [[tok(nm)] + [cell_tok((bytes([65 + k]) * 3, b'U%d  ' % k) if k % 2 else 100 * ri + k) for k in range(1, len(cols))]
+                                       for ri, nm in enumerate(names)]})
     wrep = ctx.lean([table_line(c) for c in cases])
     reads = []
     for c, m in zip(cases, wrep):
@@ -727,6 +827,29 @@ def _run(ctx, mods):
     for (c, lr, how), m in zip(reads, rrep):
         line, _ = impl_table(mods, lr, how)
         ctx.corr('table_read', dict(c, how=list(how)), line, m)
+    # ------------------------------------------------ TableRow access by label: raw 4-byte keys (model: getByLabel)
+    lab = []
+    for _ in range(ctx.n(3000, 30000)):
+        k = rng.randint(1, 6)
+        ms = [gen_mnem(rng) for _ in range(k)]
+        if k > 1 and rng.random() < 0.6:
+            a, b = near_dup_pair(rng); i, j = rng.sample(range(k), 2); ms[i], ms[j] = a, b
+        if k > 1 and rng.random() < 0.15: ms[rng.randrange(k)] = ms[rng.randrange(k)]        # a real duplicate: first wins
+        probes = ms + label_probes(ms)[:6] + [gen_mnem(rng)]
+        lab.append((ms, rng.choice(probes)))
+    lrep = ctx.lean(['label %s %s' % (','.join(hx(m) for m in ms), hx(q)) for ms, q in lab])
+    for (ms, q), m in zip(lab, lrep):
+        row = LogiRec.TableRow(LogiRec.CbEngValWrite(0, b'NAME', ms[0]))
+        for x in ms[1:]: row.addCb(LogiRec.CbEngValWrite(69, 1, x))
+        try: out = 'ok %d' % row._getByLable(q)
+        except KeyError: out = 'ok N'
+        except Exception as e: out = 'err ' + fam(e)
+        ctx.corr('row_label', {'op': 'label', 'mnems': [hx(x) for x in ms], 'label': hx(q)}, out, m)
+        ctx.count('oracle_cases')
+        want = ms.index(q) if q in ms else None
+        if out != ('ok N' if want is None else 'ok %d' % want) or (q in row) != (want is not None):
+            ctx.fail({'op': 'label', 'mnems': [hx(x) for x in ms], 'label': hx(q)},
+                     'row with cell mnemonics %r: label %r gives %s, expected index %r' % (ms, q, out, want))
     # ------------------------------------------------ hand-assembled / ill-formed block streams (reader only)
     streams = [gen_stream(rng) for _ in range(ctx.n(8000, 80000))]
     srep = ctx.lean(['table ' + hx(s) for s in streams])
@@ -790,6 +913,7 @@ def oracle_dupes(ctx, mods):
     for _ in range(ctx.n(1500, 15000)):
         n = rng.randint(1, 8)
         pool = [rbytes(rng, 4) for _ in range(rng.randint(1, 4))]
+        if rng.random() < 0.4: pool += list(near_dup_pair(rng))          # near-duplicates are different rows
         names = [rng.choice(pool) for _ in range(n)]
         lr = bytearray([34, 0]) + py_cb(73, 65, 4, 0, b'TYPE', b'    ', b'DUPE')
         for i, nm in enumerate(names):
@@ -836,6 +960,15 @@ def replay(ctx, rec):
             for i, nm in enumerate(names):
                 lr += py_cb(0, 65, 4, 0, b'MNEM', b'    ', nm) + py_cb(69, 79, 2, 0, b'SEQ ', b'    ', i)
             check_dupes(ctx, mods, case, bytes(lr), names)
+        elif op == 'label':
+            LogiRec = mods[0]
+            ms = [b'' if x == '-' else bytes.fromhex(x) for x in case['mnems']]; q = b'' if case['label'] == '-' else bytes.fromhex(case['label'])
+            row = LogiRec.TableRow(LogiRec.CbEngValWrite(0, b'NAME', ms[0]))
+            for x in ms[1:]: row.addCb(LogiRec.CbEngValWrite(69, 1, x))
+            try: got = row._getByLable(q)
+            except KeyError: got = None
+            want = ms.index(q) if q in ms else None
+            return got == want, 'row with cell mnemonics %r: label %r -> %r, expected %r' % (ms, q, got, want)
         elif op == 'rt68':
             RepCode = mods[1]
             v = float.fromhex(case['v']); d = RepCode.from68(RepCode.to68(v))
